@@ -192,8 +192,8 @@ func (c *Ctx) hookCompleteness(n int, cov map[string]any) {
 	})
 	type out struct {
 		compared, events int
-		problem         string
-		sample          string
+		problem          string
+		sample           string
 	}
 	res := make([]out, len(progs))
 	var attempt func(i int)
